@@ -582,6 +582,13 @@ def main():
             return any(f["fn"] == o["fn"] and f["kind"] in ("precondition", "overflow", "bounds", "divzero", "decreases", "unreachable")
                        for _, f in violations) or any(f["fn"] == o["fn"] and f["kind"] in ("precondition", "overflow", "bounds", "divzero", "decreases") for f, _ in known_hits)
         return False
+    # obligations that fail only because of a listed open finding are reported under known_open, never counted as obligations
+    kh_ids = set(f["id"] for f, _ in known_hits)
+    kh_ft = set((f["fn"], f["text"][:160]) for f, _ in known_hits)
+    viol_ids = set(f["id"] for _, f in violations)
+    def ob_known(o):
+        return (o["id"] in kh_ids or (o["fn"], o["id"].split("/", 3)[3]) in kh_ft) and o["id"] not in viol_ids
+    obligations = [o for o in obligations if not ob_known(o)]
     n_ob = len(obligations)
     n_failed = sum(1 for o in obligations if ob_failed(o))
     vacuous = []
